@@ -640,11 +640,17 @@ def monMem (c : ImplCase) : List String :=
   | some v => [s!"mon C06 FAIL memory-bound-exceeded {v}"]
   | none => []
 
+/-- the configuration was changed on the live connection: the monitors that judge against the
+configuration of the case header do not apply (the correspondence still compares everything) -/
+def hasSetCfg (c : ImplCase) : Bool := c.ops.any fun o => isOp o "setcfg"
+
 def all (c : ImplCase) : List String :=
+  if hasSetCfg c then monC07 c ++ monC09 c ++ monC09Keys c ++ monC05Block c else
   let m10 := monC10 c
   let m09 := monC09 c
   monC07 c ++ monMem c ++ monSpecAll c ++ monC05Block c ++ monC03 c ++ m09 ++ monC09Keys c ++ m10 ++ monC11 c ++ monC12 c ++ monC13 c ++ monC14 c ++ monC01 c
     ++ alias m10 "C10" "C19" ++ alias m09 "C09" "C19" ++ alias m10 "C10" "C01"
+    ++ alias (m10.filter (·.contains "wire-not-prefix-of-accepted")) "C10" "C09"
     ++ alias (monC13 c) "C13" "C10" ++ alias ((monC13 c).filter (·.contains "FAIL")) "C13" "C12"
     ++ alias ((monC13 c).filter (·.contains "FAIL")) "C13" "C04" ++ alias ((monC03 c).filter (·.contains "FAIL")) "C03" "C04"
     ++ alias ((monC07 c).filter fun l => l.startsWith "mon C07 FAIL") "C07" "C05"
